@@ -277,6 +277,9 @@ int cs_vector_on_cal;
 int cs_param_fillers;
 int cs_real_scalars;
 int cs_ident_priors;
+cs_c cs_system_z0;
+int cs_apply_z0_mismatch;
+cs_c cs_apply_z0_expected, cs_apply_z0_got;
 
 int cs_make_params(vnacal_t *vcp, cs_scenario *sc)
 {
@@ -586,6 +589,10 @@ vnacal_new_t *cs_build(vnacal_t *vcp, cs_scenario *sc)
 	vnacal_new_free(vnp);
 	return NULL;
     }
+    if (cs_system_z0 != 0.0 && vnacal_new_set_z0(vnp, cs_system_z0) == -1) {
+	vnacal_new_free(vnp);
+	return NULL;
+    }
     for (int k = 0; k < sc->nstd; ++k) {
 	if (cs_add_std(vnp, sc, k) != 0) {
 	    int e = errno;
@@ -695,6 +702,17 @@ int cs_apply(vnacal_t *vcp, int ci, const cs_scenario *sc,
 		for (int i = 0; i < P; ++i)
 		    for (int j = 0; j < P; ++j)
 			Sout[f][i * P + j] = vnadata_get_cell(vdp, f, i, j);
+	    }
+	    /* the S-parameters are relative to the system impedance of the
+	       calibration: the result carries it */
+	    cs_apply_z0_expected = vnacal_get_z0(vcp, ci);
+	    cs_apply_z0_mismatch = 0;
+	    for (int i = 0; i < P; ++i) {
+		cs_c z = vnadata_get_z0(vdp, i);
+		if (z != cs_apply_z0_expected) {
+		    cs_apply_z0_mismatch = 1;
+		    cs_apply_z0_got = z;
+		}
 	    }
 	}
     }
